@@ -491,6 +491,11 @@ def tie(ctx):
             gd = gens[k % len(gens)]
             genes = load_pair(gd)
             ga = genes[0]
+            tabs_ = [{a: sorted(al.minors) for a, al in g_.alleles.items()} for g_ in genes]
+            if tabs_[0] != tabs_[1]:
+                dif = sorted(set(tabs_[0].items() if False else [(a, tuple(v)) for a, v in tabs_[0].items()]) ^ set((a, tuple(v)) for a, v in tabs_[1].items()))[:4]
+                violations.append({"why": f"the two builds of one database load different star-allele tables: {dif}", "input": {"db": gd}, "signature": "c13:allele_table_differs"})
+                continue
             majors = [a for a, al in ga.alleles.items() if al.cn_config == "1"]
             copies = []
             for _ in range(2):
